@@ -470,7 +470,7 @@ impl<'a> Ri<'a> {
                     let mut res = FullResolver { ri: self, no_vars: false };
                     res.resolve(var).unwrap_or(0)
                 };
-                let next = cur.wrapping_add(1);
+                let next = cur.saturating_add(1);
                 if next < n {
                     self.set(var, next);
                 } else {
